@@ -7,7 +7,7 @@ All data are floats k/2^j, so on grid points every evaluation is exact in binary
 rational value the Coq model computes."""
 import sys
 
-sys.path.insert(0, "/repo")
+sys.path.insert(0, __import__("os").environ.get("VERIF_REPO", "/repo"))
 import numpy as np
 import scipy.sparse as sps
 from pygradflow.problem import Problem
@@ -117,7 +117,7 @@ class QuadProblem(Problem):
     def _ret(self, key, x, y, make):
         if self.policy == "fresh":
             return make()
-        if self.policy == "cached":
+        if self.policy == "cached" and key in ("J", "H"):      # constant derivatives only (affine rows, quadratic objective)
             k = (key,)
         else:
             k = (key, np.asarray(x).tobytes(), None if y is None else np.asarray(y).tobytes())
